@@ -256,4 +256,142 @@ Proof.
   - intros id T. rewrite Tb. split; [exact T|]. split; [left; apply Rf | apply sents_on_quiet, Q].
 Qed.
 
+(* one stream of the table sends, and stays *)
+Lemma batch_put1 c c' d st s2 :
+  AuxT c -> In st (sc_strms c) ->
+  sc_strms c' = strms_put (sc_strms c) s2 -> sc_ring c' = sc_ring c -> sc_oldest c' = sc_oldest c ->
+  sc_rl_done c' = sc_rl_done c -> sc_wl_dead c' = sc_wl_dead c -> sc_readerQ c' = sc_readerQ c ->
+  sc_lastID c' = sc_lastID c -> sc_highestID c' = sc_highestID c -> sc_closing c' = sc_closing c ->
+  sc_expectCont c' = sc_expectCont c -> sc_discardID c' = sc_discardID c -> filter noisy d = [] ->
+  st_id s2 = st_id st -> st_state s2 = st_state st -> st_headersFinished s2 = st_headersFinished st -> strm_ok s2 ->
+  batch c c' d [].
+Proof.
+  intros AT HIn A1 A2 A3 A4 A5 A6 A7 A8 A9 A10 A11 Q Hid Hst Hfin Hok.
+  pose proof (A_nodup _ _ AT) as ND. assert (T0 : tbl c (st_id st) = Some st) by (apply In_search; assumption).
+  assert (TbS : tbl c' (st_id st) = Some s2).
+  { unfold SrvRfcDefs.tbl in *. rewrite A1, <- Hid. eapply search_put_same. rewrite Hid. exact T0. }
+  assert (TbO : forall id, id <> st_id st -> tbl c' id = tbl c id).
+  { intros id Hne. unfold SrvRfcDefs.tbl. rewrite A1. apply search_put_other. rewrite Hid. exact Hne. }
+  assert (Rf : forall id, ring_find c' id = ring_find c id) by (intro id; apply ring_find_ext, A2).
+  constructor; try assumption.
+  - apply (quiet_no_goaway d Q).
+  - clear -Q. induction d as [|o t IH]; [reflexivity|]. cbn [filter] in Q. cbn [existsb]. destruct (noisy o) eqn:N; [discriminate|].
+    rewrite (IH Q), orb_false_r. unfold noisy, is_exit in *. destruct (strip_late o); try discriminate; reflexivity.
+  - rewrite A1. apply put_nodup, ND.
+  - eapply ring_ok_ext; [exact A2 | exact A3 | apply (A_ring _ _ AT)].
+  - intros st' H. rewrite A1 in H. destruct (put_In _ _ _ ND H) as [->|[X Y]].
+    + exists st. split; [exact HIn|]. split; [exact Hid|]. split; [exact Hst|]. split; [exact Hfin|]. split; [exact Hok|].
+      split; [apply sents_on_quiet, Q|]. rewrite in_ring_find, Rf, <- in_ring_find, Hid. apply (A_tr _ _ AT st HIn).
+    + exists st'. split; [exact X|]. split; [reflexivity|]. split; [reflexivity|]. split; [reflexivity|].
+      split; [apply (AuxT_strm_ok hstate c st' AT X)|]. split; [apply sents_on_quiet, Q|].
+      rewrite in_ring_find, Rf, <- in_ring_find. apply (A_tr _ _ AT st' X).
+  - intros id st0 T T'. exfalso. destruct (N.eq_dec id (st_id st)) as [->|Hne]; [rewrite TbS in T'; discriminate|]. rewrite (TbO id Hne), T in T'. discriminate.
+  - intros id T. assert (Hne : id <> st_id st) by (intro X; rewrite X, T0 in T; discriminate).
+    rewrite (TbO id Hne). split; [exact T|]. split; [left; apply Rf | apply sents_on_quiet, Q].
+Qed.
+
+(* one stream of the table finishes its response (END_STREAM, or RST_STREAM if the body failed) and is closed *)
+Lemma batch_close1 c c' d st w so :
+  AuxT c -> In st (sc_strms c) -> st_state st = SHalfClosed -> st_headersFinished st = true ->
+  sc_strms c' = strms_del (sc_strms c) (st_id st) ->
+  sc_ring c' = sc_ring (mark_closed c (st_id st) w) -> sc_oldest c' = sc_oldest (mark_closed c (st_id st) w) ->
+  sc_rl_done c' = sc_rl_done c -> sc_wl_dead c' = sc_wl_dead c -> sc_readerQ c' = sc_readerQ c ->
+  sc_lastID c' = sc_lastID c -> sc_highestID c' = sc_highestID c -> sc_closing c' = sc_closing c ->
+  sc_expectCont c' = sc_expectCont c -> sc_discardID c' = sc_discardID c ->
+  (forall o, In o d -> is_goaway o = None) -> existsb is_exit d = false ->
+  (exists o, filter noisy d = [o] /\ sent_of o = [so]) -> so = (if w then RS.SentRst (st_id st) else RS.SentEndStream (st_id st)) ->
+  batch c c' d [(st_id st, w)].
+Proof.
+  intros AT HIn Hhc Hfin A1 A2 A3 A4 A5 A6 A7 A8 A9 A10 A11 Hng Hne (o & Q & So) Hso.
+  pose proof (A_nodup _ _ AT) as ND. assert (T0 : tbl c (st_id st) = Some st) by (apply In_search; assumption). pose proof (A_ring _ _ AT) as RO.
+  assert (TbS : tbl c' (st_id st) = None) by (unfold SrvRfcDefs.tbl; rewrite A1; apply search_del_same, ND).
+  assert (TbO : forall id, id <> st_id st -> tbl c' id = tbl c id).
+  { intros id Hn. unfold SrvRfcDefs.tbl. rewrite A1. apply search_del_other, Hn. }
+  assert (Rf : forall id, ring_find c' id = ring_find (mark_closed c (st_id st) w) id) by (intro id; apply ring_find_ext, A2).
+  assert (Rn : ring_find c (st_id st) = None).
+  { pose proof (A_tr _ _ AT st HIn) as X. rewrite in_ring_find in X. destruct (ring_find c (st_id st)); [discriminate | reflexivity]. }
+  assert (On : forall id, id <> st_id st -> sents_on id d = []).
+  { intros id Hn. rewrite (sents_on_one id d o so Q So). subst so. unfold on_id. destruct w; cbn [sent_sid];
+      replace (st_id st =? id) with false by (symmetry; apply N.eqb_neq; congruence); reflexivity. }
+  constructor; try assumption.
+  - rewrite A1. apply del_nodup, ND.
+  - eapply ring_ok_ext; [exact A2 | exact A3 | apply ring_ok_mark, RO].
+  - intros st' H. rewrite A1 in H. destruct (del_In _ _ _ ND H) as [X Y].
+    exists st'. split; [exact X|]. split; [reflexivity|]. split; [reflexivity|]. split; [reflexivity|].
+    split; [apply (AuxT_strm_ok hstate c st' AT X)|]. split; [apply On, Y|].
+    rewrite in_ring_find, Rf. pose proof (A_tr _ _ AT st' X) as Z. rewrite in_ring_find in Z.
+    destruct (ring_find_mark_other hstate c (st_id st) w (st_id st') RO Y) as [E|E]; rewrite E; [exact Z | reflexivity].
+  - intros id st0 T T'. destruct (N.eq_dec id (st_id st)) as [->|Hn]; [|rewrite (TbO id Hn), T in T'; discriminate].
+    exists w. split; [left; reflexivity|]. rewrite T0 in T. injection T as <-.
+    split; [exact Hhc|]. split; [exact Hfin|]. split.
+    + left. rewrite Rf, ring_find_mark_same by exact RO. rewrite Rn. reflexivity.
+    + rewrite (sents_on_one _ d o so Q So). subst so. unfold on_id. destruct w; cbn [sent_sid]; rewrite N.eqb_refl; reflexivity.
+  - intros id T. assert (Hn : id <> st_id st) by (intro X; rewrite X, T0 in T; discriminate).
+    rewrite (TbO id Hn). split; [exact T|]. split; [rewrite Rf; apply ring_find_mark_other; assumption | apply On, Hn].
+Qed.
+
+(* ---------- a handler returns ---------- *)
+
+Lemma quiet_exit_false d : filter noisy d = [] -> existsb is_exit d = false.
+Proof.
+  intro Q. induction d as [|o t IH]; [reflexivity|]. cbn [filter] in Q. cbn [existsb]. destruct (noisy o) eqn:N; [discriminate|].
+  rewrite (IH Q), orb_false_r. unfold noisy, is_exit in *. destruct (strip_late o); try discriminate; reflexivity.
+Qed.
+
+Lemma G_done c s ph sid r : Sim c s ph -> sc_sl_done c = false -> Gloc c s ph (feed c (IDone sid r)).
+Proof.
+  intros HS Hsl. pose proof (S_aux _ _ _ _ HS) as [AT AH]. pose proof (A_wl _ _ AT) as Hwl.
+  unfold SrvRfcDefs.feed. rewrite step_EvDone, Hsl. unfold sl_done.
+  destruct (take_stream (sc_gone c) sid) as [[sg rest]|] eqn:TK.
+  - (* a stream that was closed while its handler ran: released now *)
+    cbn [fst cont]. set (c' := release_stream _ _).
+    apply (Gloc_batch c s ph c' [ORelease (st_id (set_flags sg (st_responded sg) false true)) true] [] HS).
+    + unfold c'. sc_rw. exact Hsl.
+    + unfold c'. rewrite sc_out_release_stream. reflexivity.
+    + apply batch_same; try exact AT; unfold c'; sc_rw; reflexivity.
+    + intros i rq [H|[]]; discriminate.
+  - destruct (strms_search (sc_strms c) sid) as [st|] eqn:T.
+    2:{ cbn [fst cont]. apply (Gloc_batch c s ph c [] [] HS Hsl eq_refl); [apply batch_same; auto | intros i rq []]. }
+    destruct (st_handlerRunning st) eqn:RUN; cbn [negb].
+    2:{ cbn [fst cont]. apply (Gloc_batch c s ph c [] [] HS Hsl eq_refl); [apply batch_same; auto | intros i rq []]. }
+    pose proof (search_In _ _ _ T) as HIn. pose proof (search_id _ _ _ T) as Hid.
+    destruct (A_st _ _ AT st HIn) as (_ & Wr & Rh & Once). destruct (Rh (or_intror RUN)) as [Hhc Hfin]. pose proof (Once Hhc Hfin) as Resp.
+    set (s1 := set_flags st (st_responded st) false (st_abandoned st)).
+    destruct (finish_request enc_field c s1 r) as [[c1 s2] fin] eqn:FR.
+    destruct (finish_request_spec c s1 r c1 s2 fin (conj Hsl Hwl) FR) as (d & e & w & Ec1 & FD & Sid & Sst & Sfin & Sresp & Srun & Sout).
+    destruct (hdr_data_rst_facts d FD) as (Dnd & Dng & Dne).
+    assert (Id2 : st_id s2 = st_id st) by (rewrite Sid; reflexivity).
+    destruct fin.
+    + (* the response is complete: the stream is closed *)
+      set (sC := set_state s2 SClosed).
+      set (c3 := close_stream (put c1 sC) sC).
+      set (d3 := if st_handlerRunning sC then d else ORelease (st_id sC) true :: d).
+      assert (O3 : sc_out c3 = d3 ++ sc_out c).
+      { unfold c3, d3. rewrite sc_out_close_stream, sc_out_put, Ec1. sc_cbn. destruct (st_handlerRunning sC); reflexivity. }
+      assert (F3 : filter noisy d3 = filter noisy d) by (unfold d3; destruct (st_handlerRunning sC); reflexivity).
+      assert (Nd3 : forall i rq, ~ In (ODispatch i rq) d3).
+      { unfold d3. destruct (st_handlerRunning sC); [exact Dnd|]. intros i rq [H|H]; [discriminate | exact (Dnd i rq H)]. }
+      apply (Gloc_finish c s ph c3 d3 _ O3 Nd3). intros _.
+      assert (IdC : st_id sC = st_id st) by (unfold sC; cbn; exact Id2).
+      apply (Gloc_batch c s ph c3 d3 [(st_id st, st_weReset sC)] HS); [unfold c3; sc_rw; rewrite Ec1; sc_cbn; exact Hsl | exact O3 | | exact Nd3].
+      apply (batch_close1 c c3 d3 st (st_weReset sC) (if st_weReset sC then RS.SentRst (st_id st) else RS.SentEndStream (st_id st)) AT HIn Hhc Hfin);
+        unfold c3; rewrite ?sc_strms_close_stream, ?sc_ring_close_stream, ?sc_oldest_close_stream, ?sc_discardID_close_stream; sc_rw; rewrite ?Ec1; sc_cbn; rewrite ?IdC; try reflexivity.
+      * rewrite ?sc_strms_put, ?Ec1. sc_cbn. rewrite <- IdC at 1. rewrite del_put, IdC. reflexivity.
+      * apply mark_closed_ring_ext; sc_rw; rewrite ?Ec1; reflexivity.
+      * apply mark_closed_ring_ext; sc_rw; rewrite ?Ec1; reflexivity.
+      * unfold sC. cbn [st_headersFinished set_state]. rewrite Sfin. cbn. rewrite Hfin. cbn [negb andb]. rewrite andb_false_r. reflexivity.
+      * unfold d3. destruct (st_handlerRunning sC); [exact Dng|]. intros o [<-|H]; [reflexivity | apply Dng, H].
+      * unfold d3. destruct (st_handlerRunning sC); [exact Dne|]. cbn [existsb is_exit strip_late orb]. exact Dne.
+      * rewrite F3. destruct Sout as [(o & Fq & So & Wr2)|(Fq & Wr2)].
+        -- exists o. split; [exact Fq|]. unfold sC. cbn [st_weReset set_state]. rewrite Wr2. cbn. rewrite Wr. rewrite So. cbn. rewrite Hid. reflexivity.
+        -- exists (ORst (st_id s1) c_InternalError). split; [exact Fq|]. unfold sC. cbn [st_weReset set_state]. rewrite Wr2. reflexivity.
+    + (* more to send later *)
+      destruct Sout as (Fq & Wr2 & Sok).
+      assert (O3 : sc_out (put c1 s2) = d ++ sc_out c) by (rewrite sc_out_put, Ec1; reflexivity).
+      apply (Gloc_finish c s ph (put c1 s2) d _ O3 Dnd). intros _.
+      apply (Gloc_batch c s ph (put c1 s2) d [] HS); [sc_rw; rewrite Ec1; sc_cbn; exact Hsl | exact O3 | | exact Dnd].
+      apply (batch_put1 c (put c1 s2) d st s2 AT HIn); sc_rw; rewrite ?Ec1; sc_cbn; try reflexivity; try assumption.
+      unfold strm_ok. rewrite Sst, Sresp, Srun, Sfin, Wr2. cbn. rewrite Hhc, Hfin, Resp, Wr. repeat split; auto.
+Qed.
+
 End Batch2.
